@@ -69,7 +69,7 @@ def lp_base(rng, inst, opts, ops=None, policy=None):
                       'duration_seed': rng.randrange(2 ** 31)},
           'clock_seed': rng.randrange(2 ** 31)}
     x = rng.random()
-    if x < 0.12:
+    if x < 0.2:
         sc['backend']['value_noise'] = rng.randrange(1, 2 ** 31)
     if rng.random() < 0.1:
         sc['relpath'] = True     # run from the instance's directory, -f name
@@ -91,6 +91,10 @@ def build_c02(rng, tier):
            ['get_results_short']]
     if rng.random() < 0.08:
         ops.insert(0, ['clobber', {'mode': 'delete'}])
+    if rng.random() < 0.1:
+        # a time limit that cannot be reached is part of the API too
+        ops[-4][1]['timeLimit'] = rng.choice(
+            [10 ** 9, 10 ** 15, 1e18, 2 ** 63])
     return lp_base(rng, inst, opts, ops=ops)
 
 
